@@ -571,6 +571,10 @@ def Op.isBasic : Op → Bool
   | .transfer _ _ _ => false
   | .wake _ => true
 
+/-- Op sequences of the protocol without ownership transfer. -/
+def basicOps (ops : List Op) : Bool := ops.all Op.isBasic
+
+
 /-- Answers, for the theorems and the driver. -/
 inductive Answer
   | unit
